@@ -154,6 +154,16 @@ def run_call(call):
             res["attrs"]["file_tag"] = reader.file_tag
             seq = call.get("seq") or [call.get("n_blocks", -1)] * int(call.get("repeat", 1))
             for nb in seq:
+                if nb == "bad":
+                    # a call that raises (invalid sub-detector name) in the middle of a history: the next call must be unaffected
+                    n_orders = len(orders)
+                    try:
+                        reader.arrays(sub_detectors=["MDC"])
+                        res.setdefault("notes", []).append("bad-call-did-not-raise")
+                    except Exception:  # noqa
+                        pass
+                    del orders[n_orders:]      # completion orders are recorded for the successful calls only
+                    continue
                 arr = reader.arrays(n_blocks=nb, **kw)
                 res["values"].append(canon(arr)); res["types"].append(str(arr.type))
             reader.close()
